@@ -37,6 +37,7 @@ THEOREMS = [
     "Ymq.C03Qs64.qs64_no_panic_of_nonsquare",
     "Ymq.C03Qs64.qs64_no_panic",
     "Ymq.C03Qs64.qs64_square_nk_counterexample",
+    "Ymq.C03Qs64.usesQs64_of_model",
 ]
 HYPOTHESES = []
 MODELLED = ["qsieve64::qsieve from its first line down to the call of relations::final_step and the lines after it (Ymq/Model/Qsieve64.lean): both early exits, "
